@@ -1,6 +1,480 @@
 import OnetVerif.Model.C13
-/-! Property C13 — property theorems, negation witnesses, `_partial` variants and non-vacuity
-examples only (helper lemmas that need Mathlib go to OnetVerif/Proofs/). -/
+/-! Property C13 — identifiers are deterministic and distinguish what they identify.
+
+Every identifier is `hash (pre-image)`; the model (`Model/C13.lean`) gives each pre-image byte for
+byte.  Determinism is by construction: each identifier is a *function* of the listed fields (Lean
+functions have no hidden state — that the Go code has none either is what the correspondence run
+checks).  The theorems here are about distinctness: the pre-image functions are injective (tokens,
+names, keys), or injective exactly up to a characterised class (rosters, trees) with concrete
+collisions inside that class.  Distinct identifiers then follow from collision-freeness of the hash
+on the two pre-images involved, which is an explicit hypothesis of every `…_ids_distinct`. -/
 namespace C13
+
+/-! ### hex and UUID text forms are injective -/
+
+private theorem hexNib_inj {a b : Nat} (ha : a < 16) (hb : b < 16) (h : hexNib a = hexNib b) : a = b := by
+  unfold hexNib at h
+  split at h <;> split at h <;> omega
+
+theorem hexAscii_length (l : Bytes) : (hexAscii l).length = 2 * l.length := by
+  induction l with
+  | nil => rfl
+  | cons b r ih => simp [hexAscii, ih]; omega
+
+theorem hexAscii_injective {a b : Bytes} (ha : IsBytes a) (hb : IsBytes b)
+    (h : hexAscii a = hexAscii b) : a = b := by
+  induction a generalizing b with
+  | nil =>
+    cases b with
+    | nil => rfl
+    | cons y ys => simp [hexAscii] at h
+  | cons x xs ih =>
+    cases b with
+    | nil => simp [hexAscii] at h
+    | cons y ys =>
+      simp only [hexAscii, List.cons.injEq] at h
+      have hx : x < 256 := ha x (by simp)
+      have hy : y < 256 := hb y (by simp)
+      have h1 := hexNib_inj (by omega) (by omega) h.1
+      have h2 := hexNib_inj (Nat.mod_lt _ (by omega)) (Nat.mod_lt _ (by omega)) h.2.1
+      have hxy : x = y := by omega
+      have := ih (fun z hz => ha z (by simp [hz])) (fun z hz => hb z (by simp [hz])) h.2.2
+      rw [hxy, this]
+
+private theorem hexNib_ne_dash (n : Nat) : hexNib n ≠ 45 := by
+  unfold hexNib; split <;> omega
+
+private theorem hexAscii_no_dash (l : Bytes) : ∀ c ∈ hexAscii l, c ≠ 45 := by
+  induction l with
+  | nil => simp [hexAscii]
+  | cons b r ih =>
+    intro c hc
+    simp only [hexAscii, List.mem_cons] at hc
+    rcases hc with hc | hc | hc
+    · rw [hc]; exact hexNib_ne_dash _
+    · rw [hc]; exact hexNib_ne_dash _
+    · exact ih c hc
+
+private theorem filter_sub_no_dash (h s : Bytes) (hs : ∀ c ∈ s, c ∈ h) (hh : ∀ c ∈ h, c ≠ 45) :
+    s.filter (fun c => c != 45) = s :=
+  List.filter_eq_self.mpr fun c hc => by simpa using hh c (hs c hc)
+
+/-- removing the dashes from the text form gives back the 32 hex digits -/
+private theorem uuidStr_undash (u : Bytes) : (uuidStr u).filter (fun c => c != 45) = hexAscii u := by
+  have hh := hexAscii_no_dash u
+  have t : ∀ n, ((hexAscii u).take n).filter (fun c => c != 45) = (hexAscii u).take n := fun n =>
+    filter_sub_no_dash _ _ (fun c hc => List.mem_of_mem_take hc) hh
+  have d : ∀ n, ((hexAscii u).drop n).filter (fun c => c != 45) = (hexAscii u).drop n := fun n =>
+    filter_sub_no_dash _ _ (fun c hc => List.mem_of_mem_drop hc) hh
+  have td : ∀ n m, (((hexAscii u).drop n).take m).filter (fun c => c != 45) = ((hexAscii u).drop n).take m :=
+    fun n m => filter_sub_no_dash _ _ (fun c hc => List.mem_of_mem_drop (List.mem_of_mem_take hc)) hh
+  simp only [uuidStr, List.filter_append, t, d, td]
+  simp only [List.filter_cons, List.filter_nil, bne_self_eq_false, Bool.false_eq_true, if_false,
+    List.append_nil]
+  have e1 : ∀ (l : Bytes) (a b : Nat), (l.drop a).take b ++ l.drop (a + b) = l.drop a := by
+    intro l a b
+    rw [← List.drop_drop]; exact List.take_append_drop b (l.drop a)
+  rw [show (20 : Nat) = 16 + 4 from rfl, e1, show (16 : Nat) = 12 + 4 from rfl, e1,
+    show (12 : Nat) = 8 + 4 from rfl, e1, List.take_append_drop]
+
+/-- the 36-character text form of a UUID determines its bytes -/
+theorem uuidStr_injective {u v : Bytes} (hu : IsBytes u) (hv : IsBytes v)
+    (h : uuidStr u = uuidStr v) : u = v := by
+  have := congrArg (List.filter (fun c => c != 45)) h
+  rw [uuidStr_undash, uuidStr_undash] at this
+  exact hexAscii_injective hu hv this
+
+theorem uuidStr_length {u : Bytes} (h : u.length = 16) : (uuidStr u).length = 36 := by
+  have := hexAscii_length u
+  simp only [uuidStr, List.length_append, List.length_take, List.length_drop, List.length_cons,
+    List.length_nil, this, h]
+  omega
+
+/-! ### tokens -/
+
+/-- **the token pre-image is injective**: a concatenation of a fixed prefix and six fields of
+fixed length, each an injective text form.  Tokens that differ in any field — roster, tree,
+protocol, service, round or node — have different pre-images. -/
+theorem c13_token_preimage_injective (t₁ t₂ : Token) (h₁ : t₁.WF) (h₂ : t₂.WF)
+    (h : tokenPre t₁ = tokenPre t₂) : t₁ = t₂ := by
+  obtain ⟨a1, a2, a3, a4, a5, a6⟩ := h₁
+  obtain ⟨b1, b2, b3, b4, b5, b6⟩ := h₂
+  unfold tokenPre at h
+  have h := List.append_cancel_left h
+  have l := fun {u v : Bytes} (hu : IsUuid u) (hv : IsUuid v) =>
+    (uuidStr_length hu.1).trans (uuidStr_length hv.1).symm
+  obtain ⟨e1, h⟩ := List.append_inj h (l a1 b1)
+  obtain ⟨e5, h⟩ := List.append_inj h (l a5 b5)
+  obtain ⟨e4, h⟩ := List.append_inj h (l a4 b4)
+  obtain ⟨e3, h⟩ := List.append_inj h (l a3 b3)
+  obtain ⟨e2, e6⟩ := List.append_inj h (l a2 b2)
+  cases t₁; cases t₂
+  simp only [Token.mk.injEq]
+  exact ⟨uuidStr_injective a1.2 b1.2 e1, uuidStr_injective a2.2 b2.2 e2, uuidStr_injective a3.2 b3.2 e3,
+    uuidStr_injective a4.2 b4.2 e4, uuidStr_injective a5.2 b5.2 e5, uuidStr_injective a6.2 b6.2 e6⟩
+
+/-- tokens that differ (in whichever field) get different identifiers, as long as the hash does
+not collide on their two pre-images -/
+theorem c13_token_ids_distinct (H : HashFns) (t₁ t₂ : Token) (h₁ : t₁.WF) (h₂ : t₂.WF) (hne : t₁ ≠ t₂)
+    (hcf : uuid5 H (tokenPre t₁) = uuid5 H (tokenPre t₂) → tokenPre t₁ = tokenPre t₂) :
+    tokenId H t₁ ≠ tokenId H t₂ :=
+  fun h => hne (c13_token_preimage_injective t₁ t₂ h₁ h₂ (hcf h))
+
+/-- non-vacuity: two well-formed tokens that differ in the round only -/
+example : ∃ t₁ t₂ : Token, t₁.WF ∧ t₂.WF ∧ t₁ ≠ t₂ ∧ t₁.roster = t₂.roster ∧ t₁.node = t₂.node := by
+  let z : Bytes := List.replicate 16 0
+  let o : Bytes := List.replicate 16 255
+  have hz : IsUuid z := ⟨rfl, by intro b hb; simp [z] at hb; omega⟩
+  have ho : IsUuid o := ⟨rfl, by intro b hb; simp [o] at hb; omega⟩
+  exact ⟨⟨z, z, z, z, z, z⟩, ⟨z, z, z, z, o, z⟩, ⟨hz, hz, hz, hz, hz, hz⟩, ⟨hz, hz, hz, hz, ho, hz⟩,
+    by decide, rfl, rfl⟩
+
+/-! ### names and keys -/
+
+/-- **protocol names, service names, server keys and node keys** are each recovered from the
+pre-image of their identifier (fixed prefix, then the name or the hex of the key). -/
+theorem c13_name_preimage_injective :
+    (∀ n₁ n₂ : Bytes, protoPre n₁ = protoPre n₂ → n₁ = n₂) ∧
+    (∀ n₁ n₂ : Bytes, servicePre n₁ = servicePre n₂ → n₁ = n₂) ∧
+    (∀ k₁ k₂ : Bytes, IsBytes k₁ → IsBytes k₂ → serverPre k₁ = serverPre k₂ → k₁ = k₂) ∧
+    (∀ k₁ k₂ : Bytes, IsBytes k₁ → IsBytes k₂ → nodePre k₁ = nodePre k₂ → k₁ = k₂) :=
+  ⟨fun _ _ h => List.append_cancel_left h, fun _ _ h => h,
+   fun _ _ h₁ h₂ h => hexAscii_injective h₁ h₂ (List.append_cancel_left h),
+   fun _ _ h₁ h₂ h => hexAscii_injective h₁ h₂ h⟩
+
+theorem c13_name_ids_distinct (H : HashFns) (n₁ n₂ : Bytes) (hne : n₁ ≠ n₂) :
+    ((uuid3 H (protoPre n₁) = uuid3 H (protoPre n₂) → protoPre n₁ = protoPre n₂) → protoId H n₁ ≠ protoId H n₂) ∧
+    ((uuid5 H (servicePre n₁) = uuid5 H (servicePre n₂) → servicePre n₁ = servicePre n₂) → serviceId H n₁ ≠ serviceId H n₂) :=
+  ⟨fun hcf h => hne (c13_name_preimage_injective.1 _ _ (hcf h)),
+   fun hcf h => hne (c13_name_preimage_injective.2.1 _ _ (hcf h))⟩
+
+theorem c13_key_ids_distinct (H : HashFns) (k₁ k₂ : Bytes) (h₁ : IsBytes k₁) (h₂ : IsBytes k₂) (hne : k₁ ≠ k₂) :
+    ((uuid5 H (serverPre k₁) = uuid5 H (serverPre k₂) → serverPre k₁ = serverPre k₂) → serverId H k₁ ≠ serverId H k₂) ∧
+    ((uuid5 H (nodePre k₁) = uuid5 H (nodePre k₂) → nodePre k₁ = nodePre k₂) → nodeId H k₁ ≠ nodeId H k₂) :=
+  ⟨fun hcf h => hne (c13_name_preimage_injective.2.2.1 _ _ h₁ h₂ (hcf h)),
+   fun hcf h => hne (c13_name_preimage_injective.2.2.2 _ _ h₁ h₂ (hcf h))⟩
+
+/-! ### rosters -/
+
+/-- a concatenation of strings is determined piece by piece once the lengths of the pieces are known -/
+theorem flatten_injective_of_lengths {k₁ k₂ : List Bytes} (hl : k₁.map List.length = k₂.map List.length)
+    (h : k₁.flatten = k₂.flatten) : k₁ = k₂ := by
+  induction k₁ generalizing k₂ with
+  | nil =>
+    cases k₂ with
+    | nil => rfl
+    | cons _ _ => simp at hl
+  | cons x xs ih =>
+    cases k₂ with
+    | nil => simp at hl
+    | cons y ys =>
+      simp only [List.map_cons, List.cons.injEq] at hl
+      simp only [List.flatten_cons] at h
+      obtain ⟨e, h⟩ := List.append_inj h hl.1
+      rw [e, ih hl.2 h]
+
+/-- the same for pieces of one common positive length: their number is determined too -/
+theorem flatten_injective_uniform {L : Nat} (hL : 0 < L) {k₁ k₂ : List Bytes}
+    (h₁ : ∀ k ∈ k₁, k.length = L) (h₂ : ∀ k ∈ k₂, k.length = L)
+    (h : k₁.flatten = k₂.flatten) : k₁ = k₂ := by
+  induction k₁ generalizing k₂ with
+  | nil =>
+    cases k₂ with
+    | nil => rfl
+    | cons y ys =>
+      have := h₂ y (by simp)
+      have hy := congrArg List.length h
+      simp only [List.flatten_nil, List.flatten_cons, List.length_nil, List.length_append] at hy
+      omega
+  | cons x xs ih =>
+    cases k₂ with
+    | nil =>
+      have := h₁ x (by simp)
+      have hy := congrArg List.length h
+      simp only [List.flatten_nil, List.flatten_cons, List.length_nil, List.length_append] at hy
+      omega
+    | cons y ys =>
+      simp only [List.flatten_cons] at h
+      obtain ⟨e, h⟩ := List.append_inj h ((h₁ x (by simp)).trans (h₂ y (by simp)).symm)
+      rw [e, ih (fun k hk => h₁ k (by simp [hk])) (fun k hk => h₂ k (by simp [hk])) h]
+
+/-- the key sequence and the number of service keys per position give the members back -/
+theorem members_of_keys {r₁ r₂ : List Member} (hs : r₁.map (·.svcs.length) = r₂.map (·.svcs.length))
+    (h : rosterKeys r₁ = rosterKeys r₂) : r₁ = r₂ := by
+  induction r₁ generalizing r₂ with
+  | nil =>
+    cases r₂ with
+    | nil => rfl
+    | cons _ _ => simp at hs
+  | cons m ms ih =>
+    cases r₂ with
+    | nil => simp at hs
+    | cons m' ms' =>
+      simp only [List.map_cons, List.cons.injEq] at hs
+      simp only [rosterKeys, memberKeys, List.cons_append, List.cons.injEq] at h
+      obtain ⟨e, h'⟩ := List.append_inj h.2 hs.1
+      cases m; cases m'
+      simp only at h e
+      rw [h.1, e, ih hs.2 h']
+
+/-- the full statement asked for: the ordered member list (server keys with their per-service
+keys, all keys of one length, pairwise distinct) is determined by the roster pre-image -/
+def C13_roster_full : Prop :=
+  ∀ (L : Nat) (r₁ r₂ : List Member), 0 < L →
+    (∀ k ∈ rosterKeys r₁, k.length = L) → (∀ k ∈ rosterKeys r₂, k.length = L) →
+    (rosterKeys r₁).Nodup → (rosterKeys r₂).Nodup →
+    rosterPre r₁ = rosterPre r₂ → r₁ = r₂
+
+/-- **it is false on the code as it is**: the roster made of one server `A` with a service key `B`
+and the roster of the two servers `A, B` have the same pre-image (nothing separates members or
+marks service keys).  Replayed against `NewRoster` by the harness (`witness-roster`). -/
+theorem c13_roster_collision : ¬ C13_roster_full := by
+  intro h
+  have := h 1 [⟨[7], [[9]]⟩] [⟨[7], []⟩, ⟨[9], []⟩] (by decide) (by decide) (by decide) (by decide) (by decide)
+    (by decide)
+  exact absurd this (by decide)
+
+/-- **what does hold**: rosters whose keys have position-wise the same lengths and that give the
+same number of service keys to each position are determined by the pre-image (server keys, their
+order, and every service key). -/
+theorem c13_roster_preimage_injective_partial (r₁ r₂ : List Member)
+    (hl : (rosterKeys r₁).map List.length = (rosterKeys r₂).map List.length)
+    (hs : r₁.map (·.svcs.length) = r₂.map (·.svcs.length))
+    (h : rosterPre r₁ = rosterPre r₂) : r₁ = r₂ :=
+  members_of_keys hs (flatten_injective_of_lengths hl h)
+
+/-- **exactly which rosters collide** when all keys have one length (e.g. Ed25519): those with the
+same sequence of keys, however it is cut into members and service keys. -/
+theorem c13_roster_collision_iff (L : Nat) (hL : 0 < L) (r₁ r₂ : List Member)
+    (h₁ : ∀ k ∈ rosterKeys r₁, k.length = L) (h₂ : ∀ k ∈ rosterKeys r₂, k.length = L) :
+    rosterPre r₁ = rosterPre r₂ ↔ rosterKeys r₁ = rosterKeys r₂ :=
+  ⟨flatten_injective_uniform hL h₁ h₂, fun h => by unfold rosterPre; rw [h]⟩
+
+theorem c13_roster_ids_distinct (H : HashFns) (r₁ r₂ : List Member)
+    (hl : (rosterKeys r₁).map List.length = (rosterKeys r₂).map List.length)
+    (hs : r₁.map (·.svcs.length) = r₂.map (·.svcs.length)) (hne : r₁ ≠ r₂)
+    (hcf : rosterIdOfPre H (rosterPre r₁) = rosterIdOfPre H (rosterPre r₂) → rosterPre r₁ = rosterPre r₂) :
+    rosterId H r₁ ≠ rosterId H r₂ :=
+  fun h => hne (c13_roster_preimage_injective_partial r₁ r₂ hl hs (hcf h))
+
+/-- non-vacuity: two different rosters of the same layout (two servers, the first with a service key) -/
+example : ∃ r₁ r₂ : List Member, r₁ ≠ r₂ ∧
+    (rosterKeys r₁).map List.length = (rosterKeys r₂).map List.length ∧
+    r₁.map (·.svcs.length) = r₂.map (·.svcs.length) :=
+  ⟨[⟨[1, 2], [[3, 4]]⟩, ⟨[5, 6], []⟩], [⟨[5, 6], [[3, 4]]⟩, ⟨[1, 2], []⟩], by decide, by decide, by decide⟩
+
+/-! ### trees -/
+
+/-- all keys of a forest, in depth-first pre-order -/
+def keysOf (f : Forest) : List Bytes := (pre f).map (·.1)
+
+/-- the full statement asked for: trees over keys of one length, pairwise distinct (and, to make
+the negation as strong as possible, none starting with the marker byte), that differ in shape or in
+the placement of members have different depth-first pre-images -/
+def C13_tree_full : Prop :=
+  ∀ (L : Nat) (f g : Forest), 0 < L → KeysLen L f → KeysLen L g → (keysOf f).Nodup → (keysOf g).Nodup →
+    NoMarkHead f → NoMarkHead g → dfs f = dfs g → f = g
+
+/-- `r(a(b,c))` -/
+def wT1 : Forest := .node [10] (.node [11] (.node [12] .nil (.node [13] .nil .nil)) .nil) .nil
+/-- `r(a(b),c)` -/
+def wT2 : Forest := .node [10] (.node [11] (.node [12] .nil .nil) (.node [13] .nil .nil)) .nil
+
+/-- **the depth-first serialisation with leaf markers does not determine the shape**: `r(a(b,c))`
+and `r(a(b),c)` over the same four servers have the same pre-image.  Replayed against `NewTree`
+by the harness (`witness-tree`). -/
+theorem c13_tree_dfs_not_injective : wT1 ≠ wT2 ∧ dfs wT1 = dfs wT2 ∧ keysOf wT1 = keysOf wT2 := by decide
+
+theorem c13_tree_full_fails : ¬ C13_tree_full := by
+  intro h
+  exact absurd (h 1 wT1 wT2 (by decide) (by simp [KeysLen, wT1]) (by simp [KeysLen, wT2]) (by decide) (by decide)
+    (by simp [NoMarkHead, wT1]) (by simp [NoMarkHead, wT2]) (by decide)) (by decide)
+
+/-- `r(a, b(c))` with a key `b = x‖1` -/
+def wS1 : Forest := .node [10, 10] (.node [11, 11] .nil (.node [7, 1] (.node [13, 13] .nil .nil) .nil)) .nil
+/-- `r(a(b'), c)` with the key `b' = 1‖x` -/
+def wS2 : Forest := .node [10, 10] (.node [11, 11] (.node [1, 7] .nil .nil) (.node [13, 13] .nil .nil)) .nil
+
+/-- **a key that starts with the marker byte shifts the reading frame**: two trees hosting
+*different sets of servers* (`x‖1` in one, `1‖x` in the other) have the same pre-image.  Replayed
+with genuine Ed25519 points by the harness (`witness-tree-shift`). -/
+theorem c13_tree_marker_shift_collision : dfs wS1 = dfs wS2 ∧ keysOf wS1 ≠ keysOf wS2 := by decide
+
+private theorem leafMark_shape {c c' : Forest} (h : shape c = shape c') : leafMark c = leafMark c' := by
+  cases c <;> cases c' <;> simp_all [shape, leafMark, Forest.isNil]
+
+private theorem dfs_length_shape {L : Nat} {f g : Forest} (hf : KeysLen L f) (hg : KeysLen L g)
+    (hs : shape f = shape g) : (dfs f).length = (dfs g).length := by
+  induction f generalizing g with
+  | nil => cases g with
+    | nil => rfl
+    | node _ _ _ => simp [shape] at hs
+  | node k c s ihc ihs =>
+    cases g with
+    | nil => simp [shape] at hs
+    | node k' c' s' =>
+      simp only [shape, Forest.node.injEq, true_and] at hs
+      obtain ⟨hk, hc, hs1⟩ := hf
+      obtain ⟨hk', hc', hs1'⟩ := hg
+      simp only [dfs, List.length_append, ihc hc hc' hs.1, ihs hs1 hs1' hs.2, leafMark_shape hs.1, hk, hk']
+
+/-- **same shape ⇒ the placement of members decides**: two trees (forests) of the same shape over
+keys of one length have the same pre-image only if every node hosts the same key. -/
+theorem c13_tree_preimage_injective_partial (L : Nat) (f g : Forest) (hf : KeysLen L f) (hg : KeysLen L g)
+    (hs : shape f = shape g) (h : dfs f = dfs g) : f = g := by
+  induction f generalizing g with
+  | nil => cases g with
+    | nil => rfl
+    | node _ _ _ => simp [shape] at hs
+  | node k c s ihc ihs =>
+    cases g with
+    | nil => simp [shape] at hs
+    | node k' c' s' =>
+      simp only [shape, Forest.node.injEq, true_and] at hs
+      obtain ⟨hk, hc, hs1⟩ := hf
+      obtain ⟨hk', hc', hs1'⟩ := hg
+      simp only [dfs] at h
+      obtain ⟨ek, h⟩ := List.append_inj h (hk.trans hk'.symm)
+      rw [leafMark_shape hs.1] at h
+      have h := List.append_cancel_left h
+      obtain ⟨ec, es⟩ := List.append_inj h (dfs_length_shape hc hc' hs.1)
+      rw [ek, ihc c' hc hc' hs.1 ec, ihs s' hs1 hs1' hs.2 es]
+
+/-- the pre-order (key, is-leaf) sequence written out the way `dfs` does -/
+def encPre : List (Bytes × Bool) → Bytes
+  | [] => []
+  | (k, leaf) :: r => k ++ ((if leaf then [1] else []) ++ encPre r)
+
+private theorem encPre_append (a b : List (Bytes × Bool)) : encPre (a ++ b) = encPre a ++ encPre b := by
+  induction a with
+  | nil => rfl
+  | cons x xs ih => obtain ⟨k, l⟩ := x; simp [encPre, ih]
+
+/-- `dfs` sees of a tree only its pre-order (key, is-leaf) sequence -/
+theorem dfs_eq_encPre (f : Forest) : dfs f = encPre (pre f) := by
+  induction f with
+  | nil => rfl
+  | node k c s ihc ihs => simp only [dfs, pre, encPre, leafMark, encPre_append, ihc, ihs]
+
+private def GoodSeq (L : Nat) (l : List (Bytes × Bool)) : Prop :=
+  ∀ p ∈ l, p.1.length = L ∧ p.1.head? ≠ some 1
+
+private theorem pre_good {L : Nat} {f : Forest} (hk : KeysLen L f) (hm : NoMarkHead f) : GoodSeq L (pre f) := by
+  induction f with
+  | nil => intro p hp; simp [pre] at hp
+  | node k c s ihc ihs =>
+    intro p hp
+    simp only [pre, List.mem_cons, List.mem_append] at hp
+    rcases hp with hp | hp | hp
+    · rw [hp]; exact ⟨hk.1, hm.1⟩
+    · exact ihc hk.2.1 hm.2.1 p hp
+    · exact ihs hk.2.2 hm.2.2 p hp
+
+private theorem encPre_injective {L : Nat} (hL : 0 < L) {a b : List (Bytes × Bool)}
+    (ha : GoodSeq L a) (hb : GoodSeq L b) (h : encPre a = encPre b) : a = b := by
+  -- a key of positive length that does not start with 1 cannot be mistaken for a marker
+  have nohead : ∀ {l : List (Bytes × Bool)} {rest : Bytes}, GoodSeq L l → encPre l = 1 :: rest → False := by
+    intro l rest hl he
+    cases l with
+    | nil => simp [encPre] at he
+    | cons p ps =>
+      obtain ⟨k, lf⟩ := p
+      have := hl (k, lf) (by simp)
+      cases k with
+      | nil => simp at this; omega
+      | cons x xs =>
+        simp only [encPre, List.cons_append, List.cons.injEq] at he
+        simp [he.1] at this
+  induction a generalizing b with
+  | nil =>
+    cases b with
+    | nil => rfl
+    | cons p ps =>
+      obtain ⟨k, lf⟩ := p
+      have hk : k.length = L := (hb (k, lf) (by simp)).1
+      have hh := congrArg List.length h
+      simp only [encPre, List.length_nil, List.length_append] at hh
+      omega
+  | cons p ps ih =>
+    cases b with
+    | nil =>
+      obtain ⟨k, lf⟩ := p
+      have hk : k.length = L := (ha (k, lf) (by simp)).1
+      have hh := congrArg List.length h
+      simp only [encPre, List.length_nil, List.length_append] at hh
+      omega
+    | cons q qs =>
+      obtain ⟨k, lf⟩ := p
+      obtain ⟨k', lf'⟩ := q
+      have hps : GoodSeq L ps := fun x hx => ha x (by simp [hx])
+      have hqs : GoodSeq L qs := fun x hx => hb x (by simp [hx])
+      simp only [encPre] at h
+      obtain ⟨ek, h⟩ := List.append_inj h (((ha (k, lf) (by simp)).1).trans ((hb (k', lf') (by simp)).1).symm)
+      cases lf <;> cases lf'
+      · simp at h; rw [ek, ih hps hqs h]
+      · simp at h; exact (nohead hps h).elim
+      · simp at h; exact (nohead hqs h.symm).elim
+      · simp at h; rw [ek, ih hps hqs h]
+
+/-- **exactly which trees collide** (keys of one length, none starting with the marker byte): those
+with the same keys in depth-first order and the same leaves — whatever hangs below what.  So trees
+hosting different servers, or the same servers placed in another depth-first order, never share a
+pre-image; trees that differ only in *which inner node* a subtree hangs under may. -/
+theorem c13_tree_collision_iff (L : Nat) (hL : 0 < L) (f g : Forest)
+    (hf : KeysLen L f) (hg : KeysLen L g) (mf : NoMarkHead f) (mg : NoMarkHead g) :
+    dfs f = dfs g ↔ pre f = pre g := by
+  constructor
+  · intro h
+    rw [dfs_eq_encPre, dfs_eq_encPre] at h
+    exact encPre_injective hL (pre_good hf mf) (pre_good hg mg) h
+  · intro h; rw [dfs_eq_encPre, dfs_eq_encPre, h]
+
+/-- different servers, or another depth-first placement ⇒ different pre-image -/
+theorem c13_tree_members_matter_partial (L : Nat) (hL : 0 < L) (f g : Forest)
+    (hf : KeysLen L f) (hg : KeysLen L g) (mf : NoMarkHead f) (mg : NoMarkHead g)
+    (hne : keysOf f ≠ keysOf g) : dfs f ≠ dfs g := by
+  intro h
+  exact hne (by unfold keysOf; rw [(c13_tree_collision_iff L hL f g hf hg mf mg).mp h])
+
+/-- the outer pre-image (`…tree/` + roster id + hex of the digest) determines roster id and digest -/
+theorem c13_tree_outer_injective (r₁ r₂ d₁ d₂ : Bytes) (hr₁ : IsUuid r₁) (hr₂ : IsUuid r₂)
+    (hd₁ : IsBytes d₁) (hd₂ : IsBytes d₂) (h : treeOuterPre r₁ d₁ = treeOuterPre r₂ d₂) : r₁ = r₂ ∧ d₁ = d₂ := by
+  unfold treeOuterPre at h
+  have h := List.append_cancel_left h
+  obtain ⟨e1, e2⟩ := List.append_inj h ((uuidStr_length hr₁.1).trans (uuidStr_length hr₂.1).symm)
+  exact ⟨uuidStr_injective hr₁.2 hr₂.2 e1, hexAscii_injective hd₁ hd₂ e2⟩
+
+/-- trees of one shape over the same roster that place some member differently get different
+identifiers; so do trees over rosters with different identifiers — provided neither SHA-256 (on the
+two depth-first pre-images) nor the UUID hash (on the two outer pre-images) collides -/
+theorem c13_tree_ids_distinct (H : HashFns) (L : Nat) (r₁ r₂ : Bytes) (f g : Forest)
+    (hr₁ : IsUuid r₁) (hr₂ : IsUuid r₂) (hf : KeysLen L f) (hg : KeysLen L g) (hs : shape f = shape g)
+    (hne : r₁ ≠ r₂ ∨ f ≠ g)
+    (hbytes : IsBytes (H.sha256 (dfs f)) ∧ IsBytes (H.sha256 (dfs g)))
+    (hcf256 : H.sha256 (dfs f) = H.sha256 (dfs g) → dfs f = dfs g)
+    (hcf : uuid5 H (treeOuterPre r₁ (H.sha256 (dfs f))) = uuid5 H (treeOuterPre r₂ (H.sha256 (dfs g))) →
+      treeOuterPre r₁ (H.sha256 (dfs f)) = treeOuterPre r₂ (H.sha256 (dfs g))) :
+    treeId H r₁ f ≠ treeId H r₂ g := by
+  intro h
+  obtain ⟨er, ed⟩ := c13_tree_outer_injective r₁ r₂ _ _ hr₁ hr₂ hbytes.1 hbytes.2 (hcf h)
+  rcases hne with hne | hne
+  · exact hne er
+  · exact hne (c13_tree_preimage_injective_partial L f g hf hg hs (hcf256 ed))
+
+/-- **determinism, and its price**: the identifiers are functions of the key sequences alone — the
+roster id of the keys in order, the tree id of the roster id and the depth-first (key, is-leaf)
+sequence.  Nothing else of a roster or tree (addresses, node ids, roster positions, how keys are
+grouped into members, which inner node is whose parent) can influence them, whatever the hash. -/
+theorem c13_ids_functions_of_key_sequences (H : HashFns) :
+    (∀ r₁ r₂ : List Member, rosterKeys r₁ = rosterKeys r₂ → rosterId H r₁ = rosterId H r₂) ∧
+    (∀ (rid : Bytes) (f g : Forest), pre f = pre g → treeId H rid f = treeId H rid g) :=
+  ⟨fun r₁ r₂ h => by unfold rosterId rosterPre; rw [h],
+   fun rid f g h => by unfold treeId; rw [dfs_eq_encPre, dfs_eq_encPre, h]⟩
+
+/-- non-vacuity: two trees of the same shape with two members swapped -/
+example : ∃ f g : Forest, KeysLen 1 f ∧ KeysLen 1 g ∧ shape f = shape g ∧ f ≠ g ∧ NoMarkHead f ∧ NoMarkHead g :=
+  ⟨.node [10] (.node [11] .nil (.node [12] .nil .nil)) .nil,
+   .node [10] (.node [12] .nil (.node [11] .nil .nil)) .nil,
+   by simp [KeysLen], by simp [KeysLen], by decide, by decide, by simp [NoMarkHead], by simp [NoMarkHead]⟩
 
 end C13
